@@ -382,6 +382,7 @@ type FuncContract struct {
 	AssumeCB      map[string][]*Clause // per function-valued parameter: assumed of every result (args: arg0.., result)
 	CountCall     map[string][]*Clause // per function-valued parameter: ghost counter (Label) += 1 at each call where the clause holds
 	InlineCallees map[string]bool
+	UseEnsures    map[string]map[string]bool // callee -> labels of the only postconditions assumed at its call sites
 	UseAll        []string // lemmas assumed in universally quantified form
 }
 
@@ -402,7 +403,7 @@ var clauseKeywords = map[string]bool{
 	"property": true, "model": true, "requires": true, "ensures": true, "loop": true,
 	"inline": true, "trusted": true, "safety": true, "pure": true, "assigns": true,
 	"let": true, "note": true, "method": true, "body": true, "use": true, "opt": true,
-	"assert": true, "purearg": true, "olet": true, "assumecb": true, "countcall": true, "oncall": true, "inlinecall": true, "useall": true,
+	"assert": true, "purearg": true, "olet": true, "assumecb": true, "countcall": true, "oncall": true, "inlinecall": true, "useall": true, "useensures": true,
 }
 
 // ParseContractFile reads one verif_contracts.go file.
@@ -732,6 +733,9 @@ func (cs *ContractSet) addClause(c *FuncContract, kw, text, file string, line in
 		if c.OnCall == nil {
 			c.OnCall = map[string][]*Clause{}
 		}
+		if !isSimpleIdent(fs[0]) {
+			return fmt.Errorf("oncall names a function-valued parameter or a channel variable, not %q", fs[0])
+		}
 		c.OnCall[fs[0]] = append(c.OnCall[fs[0]], cl)
 	case "countcall":
 		// countcall <param> <ghost> <cond>: ghost(<ghost>) counts the calls of <param> for which <cond> holds
@@ -767,6 +771,21 @@ func (cs *ContractSet) addClause(c *FuncContract, kw, text, file string, line in
 		}
 		for _, f := range strings.Fields(text) {
 			c.InlineCallees[normalizeFuncName(f)] = true
+		}
+	case "useensures":
+		fs := strings.Fields(text)
+		if len(fs) < 2 {
+			return fmt.Errorf("useensures needs a callee and at least one label")
+		}
+		if c.UseEnsures == nil {
+			c.UseEnsures = map[string]map[string]bool{}
+		}
+		k := normalizeFuncName(fs[0])
+		if c.UseEnsures[k] == nil {
+			c.UseEnsures[k] = map[string]bool{}
+		}
+		for _, l := range fs[1:] {
+			c.UseEnsures[k][l] = true
 		}
 	case "useall":
 		c.UseAll = append(c.UseAll, strings.Fields(text)...)
